@@ -12,7 +12,7 @@ static const char *KEYS[KMAX] = { "a", "b", "c", "d", "e", "f", "g", "h" };
 static const char *VALS[2] = { "1", "2" };
 
 typedef struct { spif_map_t m; int has[KMAX]; int val[KMAX]; int n; } st_t;
-enum { K_SET, K_SET_PAIR, K_REMOVE, K_SET_OWN, K_DONE };      /* K_SET_OWN: the value argument is an object the map itself holds (v=0: under the same key, v=1: under the smallest other key) */
+enum { K_SET, K_SET_PAIR, K_REMOVE, K_SET_OWN, K_DONE, K_SET_NULL };      /* K_SET_NULL: set(absent key, NULL) on the array class, which refuses to build the entry (the linked classes do not state what a NULL value means); */           /* K_SET_OWN: the value argument is an object the map itself holds (v=0: under the same key, v=1: under the smallest other key) */
 typedef struct { int k, key, v; } op_t;
 static op_t OPS[128]; static int NOPS;
 
@@ -22,6 +22,7 @@ static void build_ops(void)
     for (int k = 0; k < NK; k++) for (int v = 0; v < 2; v++) { OPS[NOPS++] = (op_t) { K_SET, k, v }; OPS[NOPS++] = (op_t) { K_SET_PAIR, k, v }; }
     for (int k = 0; k < NK; k++) OPS[NOPS++] = (op_t) { K_REMOVE, k, 0 };
     for (int k = 0; k < NK; k++) for (int v = 0; v < 2; v++) OPS[NOPS++] = (op_t) { K_SET_OWN, k, v };
+    for (int k = 0; k < NK; k++) OPS[NOPS++] = (op_t) { K_SET_NULL, k, 0 };
     OPS[NOPS++] = (op_t) { K_DONE, 0, 0 };             /* done(): the map gives up everything it holds and stays usable */
 }
 static void op_name(int i, char *b, size_t n)
@@ -30,6 +31,7 @@ static void op_name(int i, char *b, size_t n)
     if (o->k == K_SET) snprintf(b, n, "set(%s,%s)", KEYS[o->key], VALS[o->v]);
     else if (o->k == K_SET_PAIR) snprintf(b, n, "set(pair(%s,%s),NULL)", KEYS[o->key], VALS[o->v]);
     else if (o->k == K_DONE) snprintf(b, n, "done()");
+    else if (o->k == K_SET_NULL) snprintf(b, n, "set(%s,NULL)", KEYS[o->key]);
     else if (o->k == K_SET_OWN) snprintf(b, n, o->v ? "set(%s, the value object the map holds under its smallest other key)" : "set(%s, get(%s))", KEYS[o->key], KEYS[o->key]);
     else snprintf(b, n, "remove(%s)", KEYS[o->key]);
 }
@@ -48,6 +50,7 @@ static int other_key(void *vs, int key);
 static int enabled(void *vs, int op)
 {
     op_t *o = &OPS[op];
+    if (o->k == K_SET_NULL) return CLS == 0 && libast_debug_level == 0 && !((st_t *) vs)->has[o->key];      /* at a runtime level >= 1 the refusal is a fatal assertion by design */
     if (o->k != K_SET_OWN) return 1;
     return o->v ? other_key(vs, o->key) >= 0 : ((st_t *) vs)->has[o->key];
 }
@@ -109,6 +112,10 @@ static void apply(void *vs, int op)
         if ((r ? 1 : 0) != s->has[o->key]) FAIL(site(m), "model:return", shape, "set returned %d, key %s present", (int) r, s->has[o->key] ? "was" : "was not");
         if (!s->has[o->key]) { s->has[o->key] = 1; s->n++; }
         s->val[o->key] = o->v;
+    } else if (o->k == K_SET_NULL) {
+        spif_obj_t K = S_(KEYS[o->key]); m = "set(key,NULL)";
+        if (SPIF_MAP_SET(s->m, K, (spif_obj_t) NULL)) FAIL(site(m), "model:return", shape, "set of an absent key with a NULL value reported an existing key");
+        scribble_del(K);                            /* the entry was refused: nothing changes (checked below and by the probe) */
     } else if (o->k == K_DONE) {
         m = "done";
         if (!SPIF_MAP_DONE(s->m)) FAIL(site(m), "model:return", shape, "done returned FALSE");
@@ -163,6 +170,13 @@ static void probe(void *vs)
 {
     st_t *s = vs; spif_map_t m = s->m; const char *shape = s->n == 0 ? "empty map" : "non-empty map";
     mc_set_shape(shape);
+    /* a second map of the same class lives next to this one for a moment: its first two entries right after whatever this one just did concern only itself */
+    { spif_map_t b = new_map(); spif_obj_t k1 = S_("m"), k0 = S_("B"), v = S_("9");
+      SPIF_MAP_SET(b, k1, v); SPIF_MAP_SET(b, k0, v);
+      spif_obj_t g1 = SPIF_MAP_GET(b, k1), g0 = SPIF_MAP_GET(b, k0);
+      if ((int) SPIF_MAP_COUNT(b) != 2 || !is_str(g1, "9") || !is_str(g0, "9")) FAIL(site("set"), "model:second-map", shape, "a second map holds count=%d after two sets, get(m)=%s get(B)=%s", (int) SPIF_MAP_COUNT(b), g1 ? "object" : "NULL", g0 ? "object" : "NULL");
+      for (int k = 0; k < NK; k++) { spif_obj_t K = S_(KEYS[k]); if (SPIF_MAP_GET(b, K)) FAIL(site("get"), "model:second-map", shape, "a second map that holds only m and B has key %s", KEYS[k]); SPIF_OBJ_DEL(K); }
+      SPIF_OBJ_DEL(k1); SPIF_OBJ_DEL(k0); SPIF_OBJ_DEL(v); SPIF_MAP_DEL(b); }
     if ((int) SPIF_MAP_COUNT(m) != s->n) FAIL(site("count"), "model:return", shape, "count=%d model %d", (int) SPIF_MAP_COUNT(m), s->n);
     for (int k = -1; k <= NK; k++) {
         const char *kt = k < 0 ? "A" : (k == NK ? "z" : KEYS[k]); int present = (k >= 0 && k < NK && s->has[k]);
